@@ -35,6 +35,16 @@ Proof.
 Qed.
 Print Assumptions C09_wf_push.
 
+(* ... its DUPk / SWAPk have 1 <= k <= 16 and no value field *)
+Theorem C09_wf_dup : forall known sto input i k, wf_emitted known sto input i = true ->
+  stack_index "DUP" (disasm i) = Some k -> (1 <= k <= 16)%nat /\ ivalue i = None.
+Proof. exact wf_emitted_dup. Qed.
+Print Assumptions C09_wf_dup.
+Theorem C09_wf_swap : forall known sto input i k, wf_emitted known sto input i = true ->
+  stack_index "SWAP" (disasm i) = Some k -> (1 <= k <= 16)%nat /\ ivalue i = None.
+Proof. exact wf_emitted_swap. Qed.
+Print Assumptions C09_wf_swap.
+
 (* non-vacuity *)
 Example C09_items :
   map (wf_emitted ["ADD"; "MLOAD"] false [mkI "PUSH [tag]" (Some "5") 0])
